@@ -162,19 +162,24 @@ func (o *objectGoArrayReflect) _putIdx(idx int, v Value, throw bool) bool {
 		return false
 	}
 	cached := o.valueCache.get(idx)
+	rv := o.fieldsValue.Index(idx)
+	converted := false
 	if cached != nil {
 		copyReflectValueWrapper(cached)
+		// re-attach the cached wrapper if the conversion fails, also when it fails by throwing
+		defer func() {
+			if !converted {
+				cached.setReflectValue(rv)
+			}
+		}()
 	}
 
-	rv := o.fieldsValue.Index(idx)
 	err := o.val.runtime.toReflectValue(v, rv, &objectExportCtx{})
 	if err != nil {
-		if cached != nil {
-			cached.setReflectValue(rv)
-		}
 		o.val.runtime.typeErrorResult(throw, "Go type conversion error: %v", err)
 		return false
 	}
+	converted = true
 	if cached != nil {
 		o.valueCache[idx] = nil
 	}
